@@ -32,19 +32,19 @@ ASSUMPTIONS = [
     "files are only edited by the harness between runs, never during a run",
 ]
 BUDGET = {"quick": (260, 4), "thorough": (64000, 16)}
-REQUIRED = ["gens>=3", "alter", "restore", "nested", "nested_depth>=3", "sf", "new_format_added", "failed_recorded", "nested_history_begun_later", "file_appears_later"]
+REQUIRED = ["gens>=3", "alter", "restore", "nested", "nested_depth>=3", "sf", "new_format_added", "failed_recorded", "nested_history_begun_later", "file_appears_later", "sf_path_not_normalised"]
 CLI = refhash.CLI_FORMATS
 
-FILES = ["a.txt", "sub/a.txt", "cafe\u0301.txt", "sub2/b.bin", "sub/b.bin", "sub/deep/c c.txt", "sub/deep/er/est/d.mov", "sub/\u212bngstrom 100%.mov"]
-BASE = {"cafe\u0301.txt": "decomposed name", "sub/\u212bngstrom 100%.mov": "singleton + percent", "a.txt": "alpha", "sub/a.txt": "same relative path in the nested history", "sub2/b.bin": "beside the nested root", "sub/b.bin": ["00ff10", 3000],
+FILES = ["take\\1.bin", "a.txt", "sub/a.txt", "cafe\u0301.txt", "sub2/b.bin", "sub/b.bin", "sub/deep/c c.txt", "sub/deep/er/est/d.mov", "sub/\u212bngstrom 100%.mov", "sub/..two dots"]
+BASE = {"take\\1.bin": "a backslash is an ordinary character here", "sub/..two dots": "leading dots", "cafe\u0301.txt": "decomposed name", "sub/\u212bngstrom 100%.mov": "singleton + percent", "a.txt": "alpha", "sub/a.txt": "same relative path in the nested history", "sub2/b.bin": "beside the nested root", "sub/b.bin": ["00ff10", 3000],
         "sub/deep/c c.txt": "", "sub/deep/er/est/d.mov": "deepest"}
 ROOTS = ["sub", "sub/deep", "sub/deep/er", "sub/deep/er/est"]
 
 
 @st.composite
 def _scenario(draw):
-    nfiles = draw(st.integers(1, 8))
-    files = FILES[:nfiles] if draw(st.booleans()) else FILES[8 - nfiles:]
+    nfiles = draw(st.integers(1, len(FILES)))
+    files = FILES[:nfiles] if draw(st.booleans()) else FILES[len(FILES) - nfiles:]
     nested = []
     if draw(st.booleans()) and any(f.startswith("sub/") for f in files):
         # a chain of nested histories, created innermost or outermost first before anything else happens
@@ -80,8 +80,8 @@ def _scenario(draw):
             for f in files:
                 if appear.get(f, 0) < i:
                     edits[f] = draw(st.sampled_from(["keep", "keep", "keep", "alter", "restore"]))
-        gens.append({"formats": fm, "root": root, "sf": sel, "edits": edits})
-    return {"files": files, "nested": nested, "gens": gens, "late": late, "appear": appear}
+        gens.append({"formats": fm, "root": root, "sf": sel, "edits": edits, "sf_spell": draw(st.sampled_from([None, None, "dotslash", "dotdot"])) if sel else None})
+    return {"files": files, "nested": nested, "gens": gens, "late": late, "appear": appear, "spell": draw(st.sampled_from(["abs", "abs", "rel", "dot"]))}
 
 
 def strategy(tier):
@@ -184,7 +184,9 @@ def run_case(scn, ctx):
             scope = [f for f in files if (g["root"] == "" or f.startswith(g["root"] + "/")) and f in content]
             sealed = list(g["sf"]) if g["sf"] else scope
             before = {h: len(w.manifests(h)) for h in allh}
-            res = w.create(root, g["formats"], sf=["R/" + s for s in g["sf"]] if g["sf"] else None)
+            res = w.create(root, g["formats"], sf=["R/" + s for s in g["sf"]] if g["sf"] else None, sf_spell=g.get("sf_spell"), spell=scn.get("spell", "abs") if g["sf"] else "abs")
+            if g.get("sf_spell"):
+                ctx.event("sf_path_not_normalised")
             F = sorted(set(g["formats"]))
             altered = [f for f in sealed if (hist_of(f), f) in first_content and content[f] != first_content[(hist_of(f), f)]]
             want_exit = 11 if altered else 0
